@@ -217,6 +217,93 @@ def gen_program(g, prof):
                 st["names"].append(b)
                 inner = [["scope", b, False, None, inner]]
             main = [["scope", a, g.chance(20), None, inner], ["yield", 1]] + main
+        elif which == "self_cancel_host_shielded":
+            # the only child cancels its own group while the host sits behind a shield in the body: nobody but the
+            # caller of cancel() is there to be interrupted
+            gg, c1, sh = new("g"), new("c"), new("s")
+            st["names"] += [gg, c1, sh]
+            st["groups"].append(gg)
+            st["children"].append(c1)
+            target = gg
+            body = [["spawn", gg, c1, g.choice(["soon", "create"]),
+                     [["yield", g.int(1, 3)], ["cancel", target],
+                      g.choice([["forever"], ["wait", "e0"], ["yield", 3], ["sleep", 5]]), ["yield", 1]]],
+                    ["scope", sh, True, None, [g.choice([["yield", g.int(9, 14)], ["wait", "e1"]])]]]
+            main = [["group", gg, body]] + main
+        elif which == "late_shield_after_observation":
+            # P > M > S: P is cancelled, S's effective cancellation is observed (a cancelled sibling scope exits
+            # without a checkpoint / has_pending_cancellation), then M becomes a shield, then a scope inside S is
+            # cancelled on its own and must absorb
+            pn, mn, sn, cn = new("s"), new("s"), new("s"), new("s")
+            st["names"] += [pn, mn, sn, cn]
+            obs = g.choice(["sibling", "probe", "none", "caught"])
+            inner = [["cancel", pn]]
+            if obs == "sibling":
+                xn = new("s")
+                st["names"].append(xn)
+                inner.append(["scope", xn, False, None, [["cancel", xn]]])
+            elif obs == "probe":
+                inner.append(["probe"])
+            elif obs == "caught":
+                inner.append(["catch", "cancel", [["yield", 1]], [["yield", 0]], False, "swallow"])
+            inner.append(["shield", g.choice([mn, mn, sn]), True])
+            inner.append(["yield", g.int(0, 2)])
+            inner.append(["scope", cn, False, None, [["cancel", cn], ["yield", g.int(1, 2)]]])
+            inner.append(["yield", 1])
+            tree = [["scope", sn, False, None, inner]]
+            for _ in range(g.int(0, 2)):
+                en = new("s")
+                st["names"].append(en)
+                tree = [["scope", en, False, None, tree]]
+            main = [["scope", pn, False, None, [["scope", mn, False, None, tree], ["yield", 1]]]] + main
+        elif which == "native_at_group_join":
+            # a child hosting an inner group is cancelled natively while parked in the inner group's __aexit__
+            # (its last child does shielded cleanup), optionally right after the inner group's own cancellation
+            go, gi_, ch, cc = new("g"), new("g"), new("c"), new("c")
+            st["names"] += [go, gi_, ch, cc]
+            st["groups"] += [go, gi_]
+            st["children"] += [ch, cc]
+            c = g.int(3, 6)
+            if g.chance(70):
+                ext += [[c, "cancel", gi_]]
+            ext += [[c + g.int(0, 3), "native", ch]]
+            slow = [["catch", "cancel", [["forever"]], [["yield", g.int(4, 8)]], True, "reraise"]]
+            main = [["group", go, [
+                ["spawn", go, ch, "soon", [["group", gi_, [["spawn", gi_, cc, "soon", slow], ["yield", g.int(0, 2)]]],
+                                           ["yield", 1]]],
+                ["yield", g.int(1, 3)]] + main]]
+        elif which == "native_cancel_at_last_child_done":
+            # the host of GI is cancelled natively in the very cycles in which GI's last child reports in, and an
+            # outsider spawns one more child into GI at that moment
+            go, gi_, cs, cl, cc, ch = new("g"), new("g"), new("c"), new("c"), new("c"), new("c")
+            st["names"] += [go, gi_, cs, cl, cc, ch]
+            st["groups"] += [go, gi_]
+            st["children"] += [cs, cl, cc, ch]
+            late = g.choice([[["yield", g.int(1, 3)]],
+                             [["catch", "cancel", [["yield", 2]], [["yield", 2]], True, "reraise"]]])
+            acts = [["native", ch], ["spawn", gi_, cl, g.choice(["soon", "create"]), late]]
+            if g.bool():
+                acts.reverse()
+            main = [["group", go, [
+                ["spawn", go, cs, "soon", [["wait", "e1"], ["yield", g.int(0, 2)]] + acts],
+                ["spawn", go, ch, "soon", [["group", gi_, [["spawn", gi_, cc, "soon",
+                                                            [["yield", g.int(0, 3)], ["set", "e1"]]]]],
+                                           ["yield", g.int(0, 1)]]],
+            ] + main]]
+        elif which == "outsider_start":
+            # a task outside group GI calls GI.start(); GI has no ordinary child; its host leaves the body while the
+            # started task has not yet called started()
+            go, gi_, co, cx = new("g"), new("g"), new("c"), new("c")
+            st["names"] += [go, gi_, co, cx]
+            st["groups"] += [go, gi_]
+            st["children"] += [co, cx]
+            spec = {"pre": g.int(2, 6), "act": "started", "v": g.int(0, 9), "post": g.int(0, 3),
+                    "end": g.choice(["return", "return", "raise"]), "oncancel": "reraise", "cleanup": g.int(0, 2),
+                    "shielded": True}
+            main = [["group", go, [
+                ["group", gi_, [["spawn", go, co, "soon", [["yield", g.int(0, 1)], ["start", gi_, cx, spec]]],
+                                ["yield", g.int(1, 3)]]],
+                ["yield", 1]] + main]]
         elif which == "sibling_double_cancel":
             a, b, gg, c1, c2 = new("s"), new("s"), new("g"), new("c"), new("c")
             st["names"] += [a, b, gg, c1, c2]
